@@ -75,4 +75,31 @@ theorem channels_linear (perJob j : Nat) : channelsAfter false perJob j = perJob
 
 example : (runs true ["A_Node", "B_Node"] ["X"] 7).length = 3 ∧ (runs false ["A_Node", "B_Node"] ["X"] 7).length = 15 := by decide
 
+theorem addNew_length_le (reg l : List String) : (addNew reg l).length ≤ reg.length + l.length := by
+  induction l generalizing reg with
+  | nil => simp [addNew]
+  | cons n ns ih =>
+    simp only [addNew]
+    split
+    · have := ih reg; simp only [List.length_cons]; omega
+    · have := ih (reg ++ [n]); simp only [List.length_append, List.length_cons, List.length_nil] at this ⊢; omega
+
+/-- **C18 (bound).** With caching, the registry never exceeds its initial size plus one entry per generated class,
+    however many times the configuration is executed. -/
+theorem cached_size_bound (g reg : List String) (N : Nat) : (runs true g reg N).length ≤ reg.length + g.length := by
+  cases N with
+  | zero => simp [runs]
+  | succ n =>
+    rw [cached_bounded g reg (n + 1) (by omega)]
+    simp only [runs, runOnce, if_true]
+    exact addNew_length_le reg g
+
+/-- Without caching no bound exists: for a configuration that generates at least one class, every bound is exceeded. -/
+theorem uncached_unbounded (g reg : List String) (hg : g ≠ []) (B : Nat) : ∃ N, B < (runs false g reg N).length := by
+  refine ⟨B + 1, ?_⟩
+  rw [uncached_linear]
+  have : 1 ≤ g.length := by cases g with | nil => exact absurd rfl hg | cons _ _ => simp
+  have : B + 1 ≤ (B + 1) * g.length := Nat.le_mul_of_pos_right _ this
+  omega
+
 end SemantivaModel.Residue
